@@ -57,12 +57,14 @@ def props_for(path):
     return out
 
 
-def order_for(path):
+def order_for(path, all_fast=False):
+    """Checks anchored at the file (cheapest first), then importability (C01) and the emitted tests (C13), then -- only with
+    --all-fast -- the behaviour checks not anchored at the file."""
     anch = props_for(path)
     first = sorted([p for p in anch if p in FAST], key=lambda p: WALL[p])
-    rest = [p for p in FAST if p not in first]
-    slow = SLOW_ALWAYS + [p for p in SLOW_IF_ANCHORED if p in anch]
-    return first + rest + slow
+    slow = ['C01', 'C13'] + [p for p in SLOW_IF_ANCHORED if p in anch]
+    rest = [p for p in FAST if p not in first] if all_fast else []
+    return first + slow + rest
 
 
 def sh(cmd, **kw):
@@ -124,7 +126,12 @@ def python_mutants(path, text):
 def collect(targets):
     files = []
     for t in targets:
-        if t == 'templates':
+        if t == 'service-templates':
+            base = os.path.join(REPO, 'gapic/templates')
+            files += [f for f in sorted(glob.glob(base + '/%namespace/%name_%version/**/*.j2', recursive=True))
+                      if 'rest_asyncio' not in f]
+            files += sorted(glob.glob(base + '/examples/*.j2')) + sorted(glob.glob(base + '/scripts/*.j2'))
+        elif t == 'templates':
             files += [f for f in sorted(glob.glob(os.path.join(REPO, 'gapic/templates/**/*.j2'), recursive=True))
                       if '/docs/' not in f and '/testing/' not in f and 'noxfile' not in f]
         elif t == 'python':
@@ -178,7 +185,7 @@ def run_mutant(lane, m, args):
             return res
     env = dict(os.environ, VERIF_REPO=wt, VERIF_EVIDENCE_DIR=evd, VERIF_JOBS=str(args.jobs), VERIF_SCRATCH=f'/tmp/mutscratch-{lane}')
     os.makedirs(f'/tmp/mutscratch-{lane}', exist_ok=True)
-    for p in order_for(m['file']):
+    for p in order_for(m['file'], args.all_fast):
         r = sh(f'./check {p} --tier quick', cwd=VERIF, env=env)
         fps = [l.strip()[13:] for l in r.stdout.splitlines() if l.strip().startswith('fingerprint:')]
         res['checks'][p] = dict(rc=r.returncode, fp=fps[:2])
@@ -199,6 +206,8 @@ def main():
     ap.add_argument('--jobs', type=int, default=8)
     ap.add_argument('--out', default=os.path.join(VERIF, 'mutation', 'results.jsonl'))
     ap.add_argument('--limit', type=int, default=0)
+    ap.add_argument('--all-fast', action='store_true', help='also run the behaviour checks not anchored at the mutated file')
+    ap.add_argument('--offset', type=int, default=0)
     ap.add_argument('--stride', type=int, default=1, help='take every n-th mutant (sampling the site list, for a first pass)')
     args = ap.parse_args()
     muts = collect(args.targets)
@@ -206,7 +215,7 @@ def main():
     done = set()
     if os.path.exists(args.out):
         done = {json.loads(l)['id'] for l in open(args.out) if l.strip()}
-    todo = [m for m in muts[::args.stride] if m['id'] not in done]
+    todo = [m for m in muts[args.offset::args.stride] if m['id'] not in done]
     if args.limit:
         todo = todo[:args.limit]
     print(f'{len(muts)} sites, {len(done)} done, {len(todo)} to run on {args.lanes} lanes', flush=True)
